@@ -247,7 +247,11 @@ func (r *runner) finishRun() {
 	r.drain()
 	if !r.faulted && !r.hang {
 		r.checkAnswered()
-		switch r.rng.Intn(3) {
+		k := r.rng.Intn(3)
+		if r.shutdownEOF {
+			k = 1
+		}
+		switch k {
 		case 0:
 			r.ctxCancel()
 		case 1:
@@ -325,6 +329,60 @@ func runFlushReuseLate(rng *prng.R, rounds int) *runner {
 	return r
 }
 
+// A long history on one connection: k handlers that ignore cancellation are flushed early, then n filler
+// requests are served, then the k tags are reused and only then the flushed handlers return.  Any scheme
+// that identifies a request by something narrower than the request itself (a counter that wraps, a hash)
+// collides at some distance; the model identifies requests by their number, so a stale completion that is
+// taken for the reuser's shows up as a rejected history and as c07.reply-after-flush-ack.
+func runLongCollision(rng *prng.R, n int, k int) *runner {
+	r := start(rng, false, nil)
+	r.profile = fmt.Sprintf("long-flush-reuse/%d", n)
+	r.maxDepth = 64
+	r.shutdownEOF = true
+	var victims, reusers []*req
+	for i := 0; i < k && !r.hang; i++ {
+		r.sendOn(uint16(10+i), false, 0)
+		victims = append(victims, r.reqs[len(r.reqs)-1])
+	}
+	for i := 0; i < k && !r.hang; i++ {
+		r.nFlushRunning++
+		r.sendOn(uint16(200+i), true, uint16(10+i))
+	}
+	if !r.hang {
+		r.bulk(n, 0x4000, 0x4000)
+	}
+	for i := 0; i < k && !r.hang; i++ {
+		r.nReuse++
+		r.sendOn(uint16(10+i), false, 0)
+		reusers = append(reusers, r.reqs[len(r.reqs)-1])
+	}
+	// the flushed handlers return late, one per step (k handlers returning in one step would make the
+	// acceptor explore every subset of them)
+	for _, q := range victims {
+		if !r.hang && q.dispatched && !q.released {
+			r.finish(q, false)
+		}
+	}
+	for _, q := range reusers {
+		if !r.hang && q.dispatched && !q.released {
+			r.finish(q, false)
+		}
+	}
+	r.finishRun()
+	return r
+}
+
+// the distances swept: a wrap of a counter of the given width counting dispatches (width - k), counting
+// every request received (width - 2k, the k flushes are requests too), and their neighbours
+func longDistances(thorough bool) []int {
+	const k = 16
+	out := []int{65536 - k, 256 - k}
+	if thorough {
+		out = append(out, 65536-2*k, 256-2*k, 65536-k-1, 65536-k+1, 65536-2*k+1, 256-k-1, 256-k+1, 2*65536-k, 65536, 256, 4096-k, 32768-k)
+	}
+	return out
+}
+
 // ---------------------------------------------------------------- child
 
 func runCase(seed uint64, idx int, prop string, thorough bool) caseOut {
@@ -337,6 +395,8 @@ func runCase(seed uint64, idx int, prop string, thorough bool) caseOut {
 		r = runWriteFailWhileCompleting(rng, true)
 	case prop == "C11" && idx >= 2 && idx%4 == 2:
 		r = runFS(rng, idx == 2)
+	case prop == "C07" && idx >= 8 && idx-8 < len(longDistances(thorough)):
+		r = runLongCollision(rng, longDistances(thorough)[idx-8], 16)
 	case idx == 1 || (idx < 6 && prop == "C07"):
 		r = runFlushReuseLate(rng, 48)
 	default:
@@ -358,7 +418,7 @@ func runCase(seed uint64, idx int, prop string, thorough bool) caseOut {
 		out.Fails = append(out.Fails, failure2{f.key, f.what})
 	}
 	out.Stats = map[string]int{"requests": len(r.reqs), "flush_of_running": r.nFlushRunning, "tag_reuse_after_flush": r.nReuse,
-		"dup_tag_sends": r.nDup, "handler_returns_after_cancel": r.nLateFin, "steps": len(r.steps)}
+		"dup_tag_sends": r.nDup, "handler_returns_after_cancel": r.nLateFin, "steps": len(r.steps), "batched_filler_requests": r.nFillers}
 	for _, l := range r.label {
 		out.Stats["step:"+l]++
 	}
